@@ -102,6 +102,16 @@ def program_plugins(prog, log):
                 out.append([int(m.group(1)), m.group(2).decode()])
         return out
 
+    def tagged(p, request, name):
+        # odd-numbered plugins hand back a NEW request object (the hooks may "return optionally modified request object"),
+        # even-numbered ones modify the object they were given: the chain must carry on with whatever was returned
+        if p % 2 == 1:
+            import copy
+            request = copy.copy(request)
+            request.headers = dict(request.headers or {})
+        request.add_header(name, b'1')
+        return request
+
     def make(p, beh):
         class Prog(HttpProxyBasePlugin):
             def __init__(self, *a, **kw):
@@ -118,7 +128,7 @@ def program_plugins(prog, log):
                 log.append({'p': p, 'h': 'buc', 'seen': seen_tags(request)})
                 b = beh['buc']
                 if b == 'mod':
-                    request.add_header(b'X-Tag-%d-buc' % p, b'1')
+                    return tagged(p, request, b'X-Tag-%d-buc' % p)
                 elif b == 'drop':
                     return None
                 elif b == 'rej':
@@ -130,7 +140,7 @@ def program_plugins(prog, log):
                 self.nhcr += 1
                 b = beh['hcr']
                 if b == 'mod':
-                    request.add_header(b'X-Tag-%d-hcr' % p, b'1')
+                    return tagged(p, request, b'X-Tag-%d-hcr' % p)
                 elif b == 'drop' or (b == 'drop2' and self.nhcr == 2):
                     return None
                 elif b == 'rej':
